@@ -25,7 +25,8 @@ RULE = (
     "A case is a store kind (directory with a suffix / sqlite file), an initial mode and a history of 1-25 steps drawn from "
     "write, write_not_completed, write_log, drop_not_completed(id), drop_not_completed(), close+reopen(mode) over a pool of "
     "related identifiers (a, ba, aa, ab, b, names equal to or containing the suffix text, with and without the format suffix; "
-    "about 40% of the pools add identifiers with interior dots: a.1, a.2, ba.1, g.1.x, g.1.y, ENSG01.2, A.FASTA, b.fa; not-completed "
+    "about 40% of the pools add identifiers with interior dots: a.1, a.2, ba.1, g.1.x, g.1.y, ENSG01.2, A.FASTA, b.fa, and about half add a "
+    "pair that differs only in case or in one character (a/A, ba/BA, a_fa/axfa, a_1/a.1); not-completed "
     "records of a directory store are also written under '<id>.json', the form the writer apps use). "
     "After every step the live store and a freshly opened read-only store are compared with the dictionary model: member id "
     "sets, content of every member, md5 of every member, validate() counts and 'Has log', `in`, len, and the log records "
@@ -56,6 +57,8 @@ SUFFIXES = ["fasta", "fa", "txt"]
 STEMS = ["a", "ba", "aa", "ab", "b", "fab", "fasta", "xfasta", "fa", "a_fa", "axfa", "A", "BA", "txt1", "nc", "json1"]
 # identifiers with interior dots; related to the plain stems and to each other
 DOTTED = ["a.1", "a.2", "ba.1", "g.1.x", "g.1.y", "ENSG01.2", "A.FASTA", "b.fa"]
+# pairs that a case-insensitive or pattern comparison (SQL LIKE: '_' matches any character) would confuse
+CONFUSABLE = [["a", "A"], ["ba", "BA"], ["a_fa", "axfa"], ["a_1", "a.1"]]
 SCRATCH = os.path.join(os.path.dirname(os.path.dirname(os.path.abspath(__file__))), ".scratch")
 
 
@@ -102,6 +105,8 @@ def histories(draw):
     pool = draw(st.lists(st.sampled_from(STEMS), min_size=k, max_size=k, unique=True))
     n_dot = draw(st.sampled_from([0, 0, 0, 1, 2]))
     pool = pool + draw(st.lists(st.sampled_from(DOTTED), min_size=n_dot, max_size=n_dot, unique=True))
+    pair = draw(st.sampled_from([[], [], [], []] + CONFUSABLE))
+    pool = pool + [p for p in pair if p not in pool]
     mode = draw(st.sampled_from(["w", "w", "a"]))
     n = draw(st.integers(1, 25))
     steps = []
